@@ -36,6 +36,7 @@ let dispatch kind fields =
   | "TIMED" -> K_timed.run_timed fields
   | "DETECT" -> K_detect.run_detect fields
   | "CONFIG" -> K_config.run_config fields
+  | "ISO" -> K_iso.run_iso fields
   | _ -> failwith ("unknown kind " ^ kind)
 
 let () =
